@@ -42,6 +42,7 @@ def run(ctx) -> None:
     rep.rule("C03.R4", "stale clear precedes activation; END terminal; END/None activate nothing", floor=3)
     rep.rule("C03.R5", "supersteps receive the scheduler's ready list", floor=2)
     rep.rule("C03.R6", "default-open early start only for gates that never executed", floor=1)
+    rep.rule("C03.R8", "every option a node factory or node constructor accepts is used (none is silently dropped on the way to the node)", floor=8)
     rep.rule("C03.R7", "the controlling-gate relation is derived from the gates' declared targets (the relation the gate-decides-first filter uses), for every gate", floor=3)
 
     # ---- R1 ---------------------------------------------------------------------
@@ -253,6 +254,26 @@ def run(ctx) -> None:
 
     # ---- R7 ---------------------------------------------------------------------
     check_controlled_by_from_targets(ctx, "C03.R7")
+    check_node_options_used(ctx, "C03.R8")
+    # 'ungated' means: no *declared* controlling gate.  The list whose emptiness activates a node unconditionally
+    # and which is iterated for decisions is the unfiltered controlled_by entry (a gate that cannot run still gates)
+    gan_ = db.func("runners._shared.helpers._get_activated_nodes")
+    loops_ = [n for n in walk_local(gan_.node) if isinstance(n, ast.For) and isinstance(n.iter, ast.Name)]
+    gate_lists = set()
+    for lp in loops_:
+        if any(isinstance(x, ast.Attribute) and x.attr == "routing_decisions" for x in ast.walk(lp)):
+            gate_lists.add(lp.iter.id)
+    okg = bool(gate_lists)
+    whyg = "the loop over a node's controlling gates was not found"
+    for nm in gate_lists:
+        ds = db.local_defs(gan_).get(nm, [])
+        vals = [getattr(d, "value", None) for d in ds]
+        direct = len(ds) == 1 and vals[0] is not None and any(isinstance(x, ast.Attribute) and x.attr == "controlled_by" for x in ast.walk(vals[0])) and not isinstance(vals[0], (ast.ListComp, ast.SetComp, ast.GeneratorExp)) and not any(isinstance(x, ast.Call) and dotted(x.func) in ("filter", "list", "set") for x in ast.walk(vals[0]))
+        if not direct:
+            okg, whyg = False, f"'{nm}' is not the unfiltered controlled_by entry (bound {len(ds)} times / filtered): gates dropped from it — e.g. those outside the entry-point scope — stop gating, so targets of a closed-by-default gate that never decided start anyway"
+        else:
+            whyg = "activation consults every declared controlling gate of a node"
+    rep.add("C03.R7", f"{gan_.qname}:all-declared-gates-consulted", okg, gan_.loc(), whyg)
 
     # ---- R5 ---------------------------------------------------------------------
     sss = set(superstep_funcs(db))
@@ -346,6 +367,30 @@ def check_ready_conjunction(ctx, rule: str) -> None:
     rep.add(rule, f"{f.qname}:conjunction", ok, f.loc(), why)
 
 
+def check_node_options_used(ctx, rule: str) -> None:
+    """Public node factories (the @node/@route/@ifelse/@interrupt decorators) and node constructors use every
+    parameter they accept: an option that is accepted and documented but never forwarded (default_open,
+    emit, wait_for, cache ...) silently gives the node the default behaviour."""
+    db, rep = ctx.db, ctx.rep
+    n = 0
+    for f in db.all_funcs():
+        if not f.module.name.startswith("hypergraph.nodes.") or f.parent is not None:
+            continue
+        is_factory = f.cls is None and not f.name.startswith("_")
+        is_ctor = f.cls is not None and f.name == "__init__"
+        if not (is_factory or is_ctor):
+            continue
+        real = [s_ for s_ in f.node.body if not (isinstance(s_, ast.Expr) and isinstance(s_.value, ast.Constant))]
+        if not real or all(isinstance(s_, (ast.Pass, ast.Raise)) for s_ in real):
+            continue
+        used = {x.id for x in ast.walk(f.node) if isinstance(x, ast.Name) and isinstance(x.ctx, ast.Load)}
+        unused = [p_ for p_ in f.param_names if p_ not in ("self", "cls") and not p_.startswith("_") and p_ not in used]
+        n += 1
+        rep.add(rule, f"{f.qname}:options-used", not unused, f.loc(), "every accepted option is used" if not unused else f"option(s) {unused} are accepted but never used: the node silently gets the default (e.g. a gate declared default_open=False is built default-open, its targets run before its first decision)")
+    if n < 8:
+        raise AnalysisError(f"only {n} node factories/constructors found")
+
+
 def check_controlled_by_from_targets(ctx, rule: str) -> None:
     """Activation consults graph.controlled_by; the 'gate decides first' filter consults gate.targets.
     Both must be the same relation: controlled_by[t] lists every gate whose declared targets contain t."""
@@ -385,6 +430,7 @@ GE = "src/hypergraph/runners/_shared/gate_execution.py"
 RV = "src/hypergraph/runners/_shared/routing_validation.py"
 SR = "src/hypergraph/runners/sync/runner.py"
 VARIANTS = [
+    Variant("ifelse-drops-default-open", "src/hypergraph/nodes/gate.py", sub_once(r"(            when_false=when_false,\n            cache=cache,\n            hide=hide,\n)            default_open=default_open,\n", r"\1"), {"C03.R8"}),
     Variant("controlled-by-from-control-edges", "src/hypergraph/graph/core.py", replace_once("        for node in self._nodes.values():\n            if isinstance(node, GateNode):\n                for target in node.targets:\n                    if target is not END and target in self._nodes:\n                        controlled_by.setdefault(target, []).append(node.name)", "        for gate_name, target, edge_type in self._nx_graph.edges(data=\"edge_type\"):\n            if edge_type == \"control\":\n                controlled_by.setdefault(target, []).append(gate_name)"), {"C03.R7"}),
     Variant("controlled-by-route-gates-only", "src/hypergraph/graph/core.py", chain(replace_once("        from hypergraph.nodes.gate import END, GateNode\n\n        controlled_by", "        from hypergraph.nodes.gate import END, RouteNode\n\n        controlled_by"), replace_once("            if isinstance(node, GateNode):\n                for target in node.targets:\n                    if target is not END and target in self._nodes:", "            if isinstance(node, RouteNode):\n                for target in node.targets:\n                    if target is not END and target in self._nodes:")), {"C03.R7"}),
     Variant("superstep-writes-decision", "src/hypergraph/runners/sync/superstep.py", replace_once("        # Record wait_for versions\n", "        if not outputs:\n            new_state.routing_decisions.pop(node.name, None)\n        # Record wait_for versions\n"), {"C03.R1"}),
